@@ -80,13 +80,15 @@ def render(m, meta, trials=90):
         it = ITerm2Image(im, width=W, height=H)
         for term in ("iterm2", "konsole"):
             ITerm2Image._TERM = term
-            for meth in "LW":
+            for meth in "LWA":        # A: a native-animation request on a still image is documented to behave as WHOLE
                 out = format(it, f"1.1{alpha_spec}+{meth}"); n += 1; errs = []
                 files = OSC.findall(out)
                 imgs = []
                 for ctrl, payload in files:
                     keys = dict(kv.split("=") for kv in ctrl.split(";"))
                     data = base64.b64decode(payload)
+                    if not data:
+                        errs.append(("empty payload", keys)); continue
                     if int(keys["size"]) != len(data): errs.append(("size=", keys["size"], len(data)))
                     if keys["width"] != str(W) or keys["preserveAspectRatio"] != "0" or keys["inline"] != "1": errs.append(("keys", keys))
                     if (keys.get("doNotMoveCursor") == "1") != (term == "konsole"): errs.append("doNotMoveCursor")
@@ -96,7 +98,7 @@ def render(m, meta, trials=90):
                     size = (W * cw, H * ch)
                 else:
                     if len(imgs) != 1 or imgs[0][0] != H: errs.append(("whole", len(imgs)))
-                    rs = (W * cw, H * ch); size = rs if rs[0] * rs[1] < im.width * im.height else im.size
+                    rs = (W * cw, H * ch); size = rs if (meth == "A" or rs[0] * rs[1] < im.width * im.height) else im.size   # (the fallback renders at the full render size)
                 if imgs and not errs:
                     e = expected(im, alpha, size)
                     st = Image.new(e.mode, size); y = 0
